@@ -30,17 +30,18 @@ func VerifC06Chain() {
 
 	if verifParam("big", 0) == 1 {
 		// C06.chain-big: address A starts with a batch of 28 or 29 entries with one-byte fields
-		// (4 bytes each) plus one entry with offset, slot < 2^14 (4..6 bytes): the first record of
+		// (4 bytes each, concrete) plus one entry with offset, slot < 2^14 (4..6 bytes): the first record of
 		// the chain is 126..128 or 131..133 bytes long in total, i.e. on both sides of the
 		// 1-byte/2-byte length prefix boundary, and its size is kept in the head/previous pointers.
 		nb := 29 + verifChoice("bigbatch", 2)
 		vals := make([]*linkedlog.OffsetAndSizeAndSlot, nb)
 		for i := range vals {
-			bits := uint(7)
 			if i == nb-1 {
-				bits = 14
+				vals[i] = c06SymEntry(14)
+			} else { // concrete filler entries, pairwise distinct
+				c06Serial++
+				vals[i] = &linkedlog.OffsetAndSizeAndSlot{Offset: uint64(i % 100), Size: c06Serial, Slot: uint64(i%120 + 1), Flags: linkedlog.Bitmap(i % 8)}
 			}
-			vals[i] = c06SymEntry(bits)
 			pushed[0] = append(pushed[0], *vals[i])
 		}
 		verifAssert(w.flushKVs(linkedlog.KeyToOffsetAndSizeAndBlocktime{Key: keys[0], Values: vals}) == nil, "C06.chain: flushKVs (big batch) failed")
